@@ -181,6 +181,25 @@ CHECKS = {
             rapid("random", "TestC12Random", {"checks": 30000, "shards": 4}, {"checks": 300000, "shards": 16, "timeout": 6000}),
         ],
     },
+    "C15": {
+        "cli": True,
+        "technique": "model-based generation of call histories over read-only API calls (rapid-drawn operation sequences), invariant = every earlier observation still holds; repetition legs for map-order determinism in process and across fresh processes",
+        "level_text": "Histories of up to 12 read-only calls (Render, Render(COLOR), RenderPatch, RenderMerge, Json, Yaml, Equals, Diff again, merge re-read, Patch of a fresh copy) "
+                      "are run against one document pair and one diff value; after each call the documents, the structural dump of the diff and every earlier return value "
+                      "must be unchanged, and at the end the same in-memory diff must still turn a into b. Determinism: the same calls repeated 20 times on fresh parses (multi-key "
+                      "objects, multi-key merge patches) and 5 times in fresh CLI processes must print identical bytes. Exploration over sampled histories.",
+        "level_note": "In-process repetition relies on Go's per-iteration randomisation of map order (a 2-key object escapes 20 repetitions with probability 2^-19); "
+                      "fresh processes are sampled through the CLI only.",
+        "rule": "history leg: (a, b, options) from C01's generator (void allowed, wide objects), 1-12 drawn operations; determinism leg: the same plus a generated multi-key merge patch read 20 times; "
+                "processes leg: jd a b and jd -t merge2jd run 5 times each. Non-trivial: RenderPatch on a diff with a multi-add hunk, or RenderMerge on a diff with a void addition, or a history of >= 3 calls "
+                "on a non-empty diff; for the repetition legs an input with >= 2 object keys. Distinct by the full case.",
+        "assumptions": ["Patch itself is not in the list of pure calls: it always gets a fresh parse of a"],
+        "legs": [
+            rapid("history", "TestC15History", {"checks": 20000, "shards": 4}, {"checks": 250000, "shards": 16, "timeout": 6000}),
+            rapid("determinism", "TestC15Determinism", {"checks": 2500, "shards": 4}, {"checks": 30000, "shards": 16, "timeout": 6000}),
+            rapid("processes", "TestC15Processes", {"checks": 25, "shards": 6, "shrinktime": "10s"}, {"checks": 400, "shards": 16, "timeout": 6000}),
+        ],
+    },
     "C06": {
         "technique": "exhaustive enumeration of small array pairs + rapid random generation, oracle = independent LCS optimum and reference hunk interpreter",
         "level_text": "Every ordered pair of arrays over a small alphabet up to a length bound is enumerated (complete for that universe) and "
